@@ -14,7 +14,9 @@ What is demanded (and nothing more):
   * 'either' regions (real arguments outside the real domain of a function for which the property does not state a
     complex continuation, complex-typed values with zero imaginary part given to real-only functions, magnitudes where
     the value or an intermediate leaves the normal double range): a correct value or a StudentFacingError;
-  * never: nan, a numpy RuntimeWarning/ComplexWarning, a non-student-facing exception, a wrong-shaped value.
+  * never: nan, a numpy RuntimeWarning/ComplexWarning, a non-student-facing exception, a wrong-shaped value;
+  * a number-like (one-element) array at a scalar position is, by the library's design, the number it holds: the call
+    must give exactly what the call on that number gives -- a NUMBER, not a one-element array or a bare ndarray.
 """
 import cmath
 import math
@@ -338,6 +340,23 @@ def check_value(fname, z, cplx, w, mode):
     return 'no reference for %s' % fname
 
 
+def scalar_domain(fname, table):
+    return (fname in SCALAR1 and not (fname == 'abs' and table == 'matrix')) or fname in ('min', 'max', 'arctan2', 'kronecker')
+
+
+def numberlike_item(a):
+    """['v'|'m'|'t', ...] with exactly one element -> that element as a scalar argument; anything else unchanged"""
+    if is_scalar(a):
+        return a
+    sh = shape_of(a)
+    if len(sh) >= 1 and all(d == 1 for d in sh):
+        x = a[1]
+        while not isinstance(x[0], str):
+            x = x[0]
+        return list(x)
+    return a
+
+
 def judge(case, obs):
     """case: {'table','fname','args'}; returns None or a violation text.  Demands exactly the property."""
     fname, args, table = case['fname'], case['args'], case['table']
@@ -354,8 +373,12 @@ def judge(case, obs):
         except (TypeError, ValueError):
             return 'returned a non-numeric value %r' % (v,)
     n = len(args)
-    shapes = [shape_of(a) for a in args]
     is_matrix_table = (table == 'matrix')
+    if scalar_domain(fname, table):
+        # a number-like (one-element) array stands for the number it holds (library design: is_numberlike_array);
+        # the call must then behave exactly like the call on that number -- in particular return a NUMBER
+        args = [numberlike_item(a) for a in args]
+    shapes = [shape_of(a) for a in args]
 
     def must_raise(why):
         if obs['status'] == 'ret':
